@@ -306,10 +306,11 @@ def pf_quote(b, force=False):
     return b'"' + b.replace(b"\\", b"\\\\").replace(b'"', b'\\"') + b'"'
 
 
-def packfile_lines(nodes, B, filedir, quote_all=False, loc_style=0, abs_paths=True):
+def packfile_lines(nodes, B, filedir, quote_all=False, loc_style=0, abs_paths=True, late_dirs=False):
     """Write input files below filedir and return the pack file text (bytes).
     Every file gets an explicit location unless loc_style == 1 and the path is usable as location."""
     lines = []
+    late = []
     fileno = 0
     for n in nodes:
         t = n["type"]
@@ -317,7 +318,12 @@ def packfile_lines(nodes, B, filedir, quote_all=False, loc_style=0, abs_paths=Tr
         q = lambda b: pf_quote(b, quote_all)
         head = b" ".join([q(path), b"%04o" % n["mode"], b"%d" % n["uid"], b"%d" % n["gid"]])
         if t == "dir":
-            lines.append(b"dir " + head)
+            if late_dirs:
+                # declared after its contents: the directory first exists as an implicit path component with default
+                # attributes and takes the attributes of its own line when that line finally comes
+                late.append(b"dir " + head)
+            else:
+                lines.append(b"dir " + head)
         elif t == "file":
             data = content_bytes(n["content"], B)
             if loc_style == 1 and len(n["path"]) < 200 and all(len(c) <= 255 for c in n["path"].split(b"/")):
@@ -348,7 +354,7 @@ def packfile_lines(nodes, B, filedir, quote_all=False, loc_style=0, abs_paths=Tr
             lines.append(b"pipe " + head)
         elif t == "sock":
             lines.append(b"sock " + head)
-    return b"\n".join(lines) + b"\n"
+    return b"\n".join(lines + late[::-1]) + b"\n"
 
 
 # ------------------------------------------------------------------ xattr map file writer (documented encodings)
